@@ -15,10 +15,11 @@ import (
 // ---------- C04 over a real socket: the reader goroutine's own loop (1023-byte buffer) is on the path ----------
 
 type c04sCase struct {
-	V2019  bool      `json:"v2019"`
-	Bodies []kit.Hex `json:"bodies"`
-	Cuts   []int     `json:"write_cuts"`
-	GapUs  int       `json:"gap_us"`
+	V2019   bool      `json:"v2019"`
+	Bodies  []kit.Hex `json:"bodies"`
+	Cuts    []int     `json:"write_cuts"`
+	GapUs   int       `json:"gap_us"`
+	Prelude kit.Hex   `json:"earlier_connection_sent"` // bytes an earlier connection sent before it hung up (may end mid-frame)
 }
 
 func genC04Socket(t *rapid.T) c04sCase {
@@ -43,6 +44,11 @@ func genC04Socket(t *rapid.T) c04sCase {
 		c.Cuts = append(c.Cuts, rapid.IntRange(1, total-1).Draw(t, "cut"))
 	}
 	sort.Ints(c.Cuts)
+	if rapid.IntRange(0, 2).Draw(t, "prelude") == 0 {
+		// an earlier connection of another terminal ended in the middle of a frame
+		f := frame(identity{Digits: "13800130009"}, 0x0200, 77, make([]byte, 28))
+		c.Prelude = append(frame(identity{Digits: "13800130009"}, 0x0002, 76, nil), f[:rapid.IntRange(1, len(f)-1).Draw(t, "prelude_keep")]...)
+	}
 	return c
 }
 
@@ -65,7 +71,14 @@ func checkC04Socket(c c04sCase, _ *kit.Collector) kit.Result {
 		}
 	}
 	steps = append(steps, Step{Op: "wait_frames", N: len(c.Bodies), DeadlineMs: 8000}, Step{Op: "pause", PauseUs: 20000}, Step{Op: "close", Mode: "fin"})
-	h := runScenario(Scenario{Actors: []Actor{{Name: "t", Kind: "terminal", Steps: steps}}})
+	actors := []Actor{{Name: "t", Kind: "terminal", Steps: steps}}
+	if len(c.Prelude) > 0 {
+		res.Labels = append(res.Labels, "after_a_connection_that_ended_mid_frame")
+		actors[0].Steps = append([]Step{{Op: "barrier", Barrier: "prelude_done", Parties: 2}}, actors[0].Steps...)
+		actors = append(actors, Actor{Name: "earlier", Kind: "terminal", Steps: []Step{{Op: "dial"}, {Op: "write", Hex: c.Prelude}, {Op: "wait_frames", N: 1, DeadlineMs: 3000},
+			{Op: "close", Mode: "fin"}, {Op: "pause", PauseUs: 30000}, {Op: "barrier", Barrier: "prelude_done", Parties: 2}}})
+	}
+	h := runScenario(Scenario{Actors: actors})
 	if !childVerdict(h, &res) {
 		return res
 	}
@@ -93,7 +106,11 @@ func checkC04Socket(c c04sCase, _ *kit.Collector) kit.Result {
 	// the read callbacks saw exactly the frames sent, in order
 	k := 0
 	for _, e := range h.Events {
-		if e.Kind == "cb_read" && e.Conn > 1 {
+		if e.Kind == "cb_read" && e.Conn > 1 && e.Key == id.key() {
+			if k >= len(c.Bodies) {
+				res.Err = kit.Fail("more messages delivered than frames sent")
+				return res
+			}
 			want := frame(id, 0x0200, uint16(k), c.Bodies[k])
 			if !bytes.Equal(e.Data, want) || !bytes.Equal(e.Body, c.Bodies[k]) {
 				res.Err = kit.Fail("message %d delivered to the read callback differs from the frame sent", k)
@@ -277,6 +294,96 @@ func TestC14RealClock(t *testing.T) {
 			}
 			col.RecordHash(uint64(k), kit.Result{Labels: []string{"real_clock_rerequest"}, NT: true}, func() any { return map[string]any{"conn": k, "missing": p.missing} })
 		}
+		return nil, nil
+	})
+}
+
+// ---------- C14 over a socket with several stalled transfers on one connection (both tiers, ~6 s) ----------
+// The re-requests travel reader -> reissuePackChan (3 slots) -> writer; with more stalled message IDs than slots
+// every one of them must still reach the terminal, numbered like any other frame.
+
+func TestC14Socket(t *testing.T) {
+	kit.Enum(t, "C14", "TestC14Socket", "TestC14", func(col *kit.Collector) (any, error) {
+		id := identity{Digits: "13600005000"}
+		ids := []uint16{0x0200, 0x0704, 0x0801, 0x0800, 0x1205, 0x0104, 0x0805}
+		type tr struct {
+			first   uint16
+			n       int
+			missing []uint16
+		}
+		var trs []tr
+		steps := []Step{{Op: "dial"}, {Op: "write", Hex: frame(id, 0x0002, 1, nil)}, {Op: "wait_frames", N: 1, DeadlineMs: 5000}}
+		for k, m := range ids {
+			x := tr{first: uint16(900 + 10*k), n: 3 + k%3}
+			for no := 1; no <= x.n; no++ {
+				if no != 1 && (no+k)%2 == 0 {
+					x.missing = append(x.missing, uint16(no))
+					continue
+				}
+				ser := x.first
+				if no != 1 {
+					ser = x.first + uint16(no)
+				}
+				steps = append(steps, Step{Op: "write", Hex: fragFrame(id, m, ser, uint16(x.n), uint16(no), []byte{byte(k), byte(no), 0x7d})})
+			}
+			if len(x.missing) == 0 {
+				x.missing = nil
+			}
+			trs = append(trs, x)
+		}
+		stalled := 0
+		for _, x := range trs {
+			if len(x.missing) > 0 {
+				stalled++
+			}
+		}
+		steps = append(steps, Step{Op: "pause", PauseUs: 5_400_000}, Step{Op: "write", Hex: frame(id, 0x0002, 2, nil)},
+			Step{Op: "wait_frames", N: 2 + stalled, DeadlineMs: 4000}, Step{Op: "write", Hex: frame(id, 0x0002, sentinelSerial, nil)},
+			Step{Op: "wait_frames", N: 3 + stalled, DeadlineMs: 4000}, Step{Op: "close", Mode: "fin"})
+		h := runScenario(Scenario{Actors: []Actor{{Name: "t", Kind: "terminal", Steps: steps}}})
+		res := kit.Result{NT: true, Labels: []string{"socket_many_stalled_transfers"}}
+		if !childVerdict(h, &res) {
+			return "C14 socket scenario", res.Err
+		}
+		frames, _, bad := serverFrames(h, "t")
+		if bad != "" {
+			return "C14 socket scenario", kit.Fail("%s", bad)
+		}
+		got := map[uint16][]uint16{}
+		var idsSeen []string
+		for i, f := range frames {
+			idsSeen = append(idsSeen, fmt.Sprintf("%04x", f.ID))
+			if int(f.Serial) != i {
+				return map[string]any{"frames": idsSeen}, kit.Fail("frame %d (id %#04x) carries platform serial %d", i, f.ID, f.Serial)
+			}
+			if f.ID == 0x8003 {
+				b := f.Body
+				if len(b) < 3 || len(b) != 3+2*int(b[2]) {
+					return nil, kit.Fail("malformed 0x8003 body %x", b)
+				}
+				var l []uint16
+				for k := 0; k < int(b[2]); k++ {
+					l = append(l, ref.BE16(b[3+2*k:]))
+				}
+				if _, dup := got[ref.BE16(b)]; dup {
+					return map[string]any{"frames": idsSeen}, kit.Fail("two re-requests for first-packet serial %d", ref.BE16(b))
+				}
+				got[ref.BE16(b)] = l
+			}
+		}
+		for _, x := range trs {
+			if len(x.missing) == 0 {
+				continue
+			}
+			if fmt.Sprint(got[x.first]) != fmt.Sprint(x.missing) {
+				return map[string]any{"frames": idsSeen, "got": fmt.Sprint(got)}, kit.Fail("%d transfers are stalled on one connection; after 5.4 s of silence and a heartbeat the re-request for first-packet serial %d is %v, want %v (server frames: %v)", stalled, x.first, got[x.first], x.missing, idsSeen)
+			}
+		}
+		if len(got) != stalled {
+			return map[string]any{"frames": idsSeen}, kit.Fail("%d re-requests for %d stalled transfers", len(got), stalled)
+		}
+		col.RecordHash(1, res, func() any { return map[string]any{"stalled_transfers": stalled, "frames": idsSeen} })
+		col.RecordHash(2, kit.Result{NT: true, Labels: []string{"socket_many_stalled_transfers"}}, nil)
 		return nil, nil
 	})
 }
